@@ -42,15 +42,44 @@ fn run_replay(r: &Replay) -> Option<Failure> {
   }
 }
 
+/// Temp dirs are removed by every case; a run that was killed can leave some behind.  Sweep the
+/// ones that are clearly stale (older than 15 minutes) so that nothing accumulates under /tmp.
+fn sweep_stale_temp_dirs() {
+  let mut entries = Vec::new();
+  for dir in [std::env::temp_dir(), std::path::PathBuf::from("/dev/shm")] {
+    if let Ok(rd) = std::fs::read_dir(dir) {
+      entries.extend(rd.filter_map(|e| e.ok()));
+    }
+  }
+  for e in entries {
+    let name = e.file_name().to_string_lossy().to_string();
+    if !(name.starts_with("logx-e2e-") || name.starts_with("logx-roller-")) {
+      continue;
+    }
+    let old = e.metadata().ok().and_then(|m| m.modified().ok()).and_then(|t| t.elapsed().ok()).map_or(false, |d| d.as_secs() > 900);
+    if old {
+      let _ = std::fs::remove_dir_all(e.path());
+    }
+  }
+}
+
 fn check_c20(check: &mut Check) -> (String, Vec<String>, String) {
   let ctx = check.ctx.clone();
   let out = vcore::drive(&ctx, &check.findings, 1, ctx.tier.pick(30_000, 1_500_000), c20_json::strategy, c20_json::execute);
   check.absorb("json", out);
+  eprintln!("[C20] json engine done at {:.1}s", ctx.wall());
+  // keep room in the evidence samples for one case of every engine
+  check.stats.nt_samples.truncate(1);
+  check.stats.samples.truncate(0);
   let out = vcore::drive(&ctx, &check.findings, 2, ctx.tier.pick(30_000, 1_500_000), c20_pattern::strategy, c20_pattern::execute);
   check.absorb("pattern", out);
+  eprintln!("[C20] pattern engine done at {:.1}s", ctx.wall());
+  check.stats.nt_samples.truncate(2);
+  check.stats.samples.truncate(0);
   let max_ops = ctx.tier.pick(40usize, 90usize);
   let out = vcore::drive(&ctx, &check.findings, 3, ctx.tier.pick(8_000, 400_000), move || c20_roller::strategy(max_ops), c20_roller::execute);
   check.absorb("roller", out);
+  eprintln!("[C20] roller engine done at {:.1}s", ctx.wall());
   // generator health: the classes the property quantifies over must actually be reached
   for (class, min) in [
     ("json/needs_escape", 1000),
@@ -88,22 +117,30 @@ fn check_c20(check: &mut Check) -> (String, Vec<String>, String) {
 fn check_c19(check: &mut Check) -> (String, Vec<String>, String) {
   let ctx = check.ctx.clone();
   let max_events = ctx.tier.pick(60usize, 120usize);
-  let out = vcore::drive(&ctx, &check.findings, 1, ctx.tier.pick(6_000, 300_000), move || c19_route::strategy(max_events), c19_route::execute);
+  let out = vcore::drive(&ctx, &check.findings, 1, ctx.tier.pick(10_000, 300_000), move || c19_route::strategy(max_events), c19_route::execute);
   check.absorb("route", out);
+  eprintln!("[C19] route engine done at {:.1}s", ctx.wall());
+  check.stats.nt_samples.truncate(1);
+  check.stats.samples.truncate(1);
   let per_thread = ctx.tier.pick(40usize, 120usize);
-  let e2e_cases: u64 = std::env::var("VERIF_E2E_CASES").ok().and_then(|v| v.parse().ok()).unwrap_or(ctx.tier.pick(160, 4_000));
+  let e2e_cases: u64 = std::env::var("VERIF_E2E_CASES").ok().and_then(|v| v.parse().ok()).unwrap_or(ctx.tier.pick(640, 6_000));
   let mut out = vcore::drive(&ctx, &check.findings, 2, e2e_cases, move || c19_e2e::strategy(per_thread), c19_e2e::execute_recording);
-  // flaky (race-dependent) failures: report the scenario that actually failed, not the shrink residue
-  let firsts = std::mem::take(&mut *c19_e2e::FIRST_FAILURES.lock().unwrap());
+  // failures vcore could not confirm on its final re-run (race-dependent): report the smallest
+  // scenario that was actually seen failing with that signature, marked as flaky
+  let book = std::mem::take(&mut c19_e2e::BOOK.lock().unwrap().failures);
   for v in out.violations.iter_mut() {
-    if v.failure.signature == "nondeterministic" {
-      if let Some((sc, f)) = firsts.iter().find(|(_, f)| check.findings.open_for(&f.property, &f.signature).is_none()) {
+    let sig = v.failure.signature.clone();
+    if sig == "nondeterministic" || sig.starts_with("nonreproducible/") {
+      let want = sig.strip_prefix("nonreproducible/").unwrap_or("");
+      let hit = book.iter().rev().find(|(_, _, f)| f.signature == want).or_else(|| book.iter().rev().find(|(_, _, f)| check.findings.open_for(&f.property, &f.signature).is_none()));
+      if let Some((_, sc, f)) = hit {
         v.scenario = sc.clone();
-        v.failure = Failure::new(&f.property, f.signature.clone(), format!("{} [flaky: observed once; the scenario passed when re-run during shrinking, so it is reported as generated]", f.message));
+        v.failure = Failure::new(&f.property, f.signature.clone(), format!("{} [real-thread case: failed when generated, passed when re-run; replay is statistical]", f.message));
       }
     }
   }
   check.absorb("e2e", out);
+  eprintln!("[C19] e2e engine done at {:.1}s", ctx.wall());
   for (class, min) in [
     ("route/config_prefix_pair_nonadditive", 500),
     ("route/event_matched_2plus_loggers", 500),
@@ -168,6 +205,7 @@ fn main() {
       let tier = args.get(3).cloned().unwrap_or_else(|| "quick".into());
       let ctx = Ctx::from_args(&prop, &tier);
       let mut check = Check::new(ctx);
+      sweep_stale_temp_dirs();
       check.run_witnesses(&|r| run_replay(r));
       check.run_regressions(&|r| run_replay(r));
       let (rule, assumptions, engine) = match prop.as_str() {
